@@ -244,7 +244,39 @@ def extract(repo: Path) -> dict:
                        for c in ast.walk(st)):
                     push_under_stop_lock = True
                     push_after_running_test = seen_test
+    # proxy side: what the public paths of the proxies hand out
+    penter = rpc_walker.funcs.get("QMI_RpcProxy.__enter__")
+    if penter is None:
+        raise ShapeError("QMI_RpcProxy.__enter__ not found")
+    enter_returns = [ast.unparse(n.value) if n.value is not None else "None"
+                     for n in ast.walk(penter) if isinstance(n, ast.Return)]
+    forward_targets = []
+    for cls in ("QMI_RpcProxy", "QMI_RpcNonBlockingProxy"):
+        f = rpc_walker.funcs.get(f"{cls}.__init__.make_rpc_forward_function")
+        if f is None:
+            raise ShapeError(f"{cls}.__init__.make_rpc_forward_function not found")
+        lambdas = [n for n in ast.walk(f) if isinstance(n, ast.Lambda)]
+        if len(lambdas) != 1 or not isinstance(lambdas[0].body, ast.Call) or not isinstance(lambdas[0].body.func, ast.Name):
+            raise ShapeError(f"{cls}: forward function is not a single lambda calling one helper")
+        forward_targets.append((cls, lambdas[0].body.func.id))
+    # every other method of the blocking proxy: the expressions it returns
+    proxy_returns = []
+    for q, fn in sorted(rpc_walker.funcs.items()):
+        if q.startswith("QMI_RpcProxy.") and q.count(".") == 1 and q.split(".")[1] not in ("__init__", "__enter__"):
+            for n in ast.walk(fn):
+                if isinstance(n, ast.Return):
+                    v = n.value
+                    kind = ("const" if v is None or isinstance(v, ast.Constant) else
+                            "compare" if isinstance(v, (ast.Compare, ast.BoolOp, ast.UnaryOp)) else
+                            "text" if isinstance(v, ast.Call) and ast.unparse(v.func) in ("str",) or
+                            (isinstance(v, ast.Call) and isinstance(v.func, ast.Attribute) and v.func.attr == "format"
+                             and isinstance(v.func.value, ast.Constant)) else
+                            "reference:" + ast.unparse(v))
+                    proxy_returns.append((q.split(".")[1], kind))
     return {
+        "proxyEnterReturns": enter_returns,
+        "proxyForwardTargets": forward_targets,
+        "proxyOtherReturns": sorted(set(proxy_returns)),
         "workerCtorSites": sorted(worker_ctor),
         "threadStartsInRpc": sorted(thread_start_in_rpc),
         "startSkeleton": start_skeleton,
@@ -299,6 +331,9 @@ def render(t: dict) -> str:
          f"    handlersNotUnderCv := {_b(t['handlersNotUnderCv'])}",
          f"    noNestedScope := {_b(t['noNestedScope'])}",
          f"    shutdownCheckedBeforePop := {_b(t['shutdownCheckedBeforePop'])}",
-         f"    handlerCallsInRun := {t['handlerCallsInRun']} }}",
+         f"    handlerCallsInRun := {t['handlerCallsInRun']}",
+         f"    proxyEnterReturns := {_slist(t['proxyEnterReturns'])}",
+         f"    proxyForwardTargets := {_plist(t['proxyForwardTargets'])}",
+         f"    proxyOtherReturns := {_plist(t['proxyOtherReturns'])} }}",
          "", "end QmiModel.Gen.RpcShape", ""]
     return "\n".join(L)
